@@ -898,7 +898,6 @@ pub proof fn lemma_name_dec_plain(s: Seq<u8>)
         assert(s + Seq::<u8>::empty() =~= s);
     }
 }
-}
 
 // 7.3.4.2 literal strings: the value is the sequence of lexemes up to the closing parenthesis
 // (`*_def` is the defining equation; the function itself is opaque and unfolded through `lemma_*_unfold` where needed)
